@@ -238,7 +238,7 @@ DoubleSupport::divide(
         // This is NaN...
         return getNaN();
     }
-    else if (theLHS > 0.0L && isPositiveZero(theRHS) == true)
+    else if ((theLHS > 0.0L) == isPositiveZero(theRHS))
     {
         // This is positive infinity...
         return getPositiveInfinity();
